@@ -506,4 +506,126 @@ theorem plain_gzip_embeds_clock_counterexample :
     gzHeader (nibSink [47, 116, 47, 97, 46, 103, 122] 9) 1000 = [31, 139, 8, 0, 0, 0, 0, 0, 2, 255] := by
   decide
 
+/-! ### the memory-map test `maps_file` and images that hold a VIEW of a memory map -/
+
+/-- **maps_file_detects_every_map**: on every chain of owners (ndarray bases, memoryviews, array-interface
+    holders, anything else, in any order and of any length) `maps_file` answers True exactly when some owner is an
+    `np.memmap` or an `mmap.mmap` — so the copy in `to_file_map` is made for EVERY array that reads from a live map -/
+theorem maps_file_detects_every_map (ch : List Owner) :
+    mapsFile ch = true ↔ ∃ o ∈ ch, o = Owner.memmap ∨ o = Owner.mmap := by
+  rw [mapsFile_eq_any, List.any_eq_true]
+  constructor
+  · rintro ⟨o, ho, h⟩; exact ⟨o, ho, by cases o <;> simp_all [Owner.isMap]⟩
+  · rintro ⟨o, ho, h | h⟩ <;> exact ⟨o, ho, by subst h; rfl⟩
+
+/-- the source skeleton of `maps_file` (every statement, from the AST of volumeutils.py) is the one `mapsFile` is
+    written for -/
+theorem maps_file_skeleton_agrees : Gen.skelMapsFile = expectedSkelMapsFile := by decide
+
+/-- **view_self_overwrite_keeps_data**: an image that HOLDS an array viewing a memory map of file `f` through any
+    chain of owners, saved (by name: the destination is opened, and truncated, by nibabel) onto that very file —
+    with any fault, override, alias and external behaviour — still has its data, and nothing but `update_header()`
+    has happened to it. (Holds for EVERY destination; `env.destImage = f ∧ env.owned` is the dangerous one, see the
+    example and `maps_file_orig_misses_views_orig_counterexample`.) -/
+theorem view_self_overwrite_keeps_data (cls : Cls) (env : Env) (req : SaveReq) (img : Img) (f : Nat) (ch : List Owner)
+    (hsrc : img.core.src = .view f ch) (hwf : img.wf cls) (henv : env.ok cls) :
+    (saveByName cls env req img).img.core.data = img.core.data ∧
+    (saveByName cls env req img).img.core.src = .view f ch := by
+  rcases (byname_harmonises cls env req img hwf henv).1 with h | h
+  · rw [h]; exact ⟨rfl, hsrc⟩
+  · rw [h]; exact ⟨rfl, hsrc⟩
+
+/-- an image holding `np.frombuffer(mmap)`-style data (ndarray → memoryview → mmap) of file 1 -/
+def exView : Img := { exImg with core := { exImg.core with alias := none, src := .view 1 [.ndarray, .memoryview, .mmap] } }
+
+example : exView.wf .n1single ∧ exEnvSelf.destImage = 1 ∧ exEnvSelf.owned = true ∧
+    (saveByName .n1single exEnvSelf ⟨.none, some 3, .none⟩ exView).err = none ∧
+    (saveByName .n1single exEnvSelf ⟨.none, some 3, .none⟩ exView).img.core.data = 1 ∧
+    mapsFile [.ndarray, .memoryview, .mmap] = true := by
+  refine ⟨by unfold Img.wf Core.wf; decide, rfl, rfl, by decide, by decide, by decide⟩
+
+/-- the two EARLIER tests miss maps that the current one sees: `isinstance(data, np.memmap)` (fae418e9) misses
+    `np.asarray(memmap)`; the first `maps_file` (ae98171b) stops at a memoryview / array-interface holder, so an
+    image holding `np.frombuffer(mmap)` saved onto the mapped file had the file truncated under its data
+    (data id 0 = garbage / SIGBUS) -/
+theorem maps_file_orig_misses_views_orig_counterexample :
+    isMemmapOrig [.ndarray, .memmap, .mmap] = false ∧ mapsFile [.ndarray, .memmap, .mmap] = true ∧
+    mapsFileOrig [.ndarray, .memmap, .mmap] = true ∧
+    mapsFileOrig [.ndarray, .memoryview, .mmap] = false ∧ mapsFile [.ndarray, .memoryview, .mmap] = true ∧
+    mapsFileOrig [.ndarray, .other, .memmap, .mmap] = false ∧ mapsFile [.ndarray, .other, .memmap, .mmap] = true ∧
+    (let w := materializeWith mapsFileOrig { img := exView.core }
+     let c : Ctx := { skelCtx with env := { skelEnv with destImage := 1 } }
+     w.live = some 1 ∧ (exec c (.openW .image) w).2.img.data = 0 ∧ exView.core.data = 1) := by
+  decide
+
+/-! ### by-name saves: binding and retry -/
+
+/-- **byname_binds_first**: `to_filename` / `nibabel.save` / `set_filename` + `to_file_map()` bind the image to the
+    new names BEFORE anything is written — so after ANY outcome (success, OSError at any call, WriterError, …), for
+    every class, the image is bound to the requested names -/
+theorem byname_binds_first (cls : Cls) (env : Env) (req : SaveReq) (img : Img) :
+    (saveByName cls env req img).img.fileMap = req.fileMap.getD img.fileMap := by
+  unfold saveByName save finish
+  simp only [Option.getD_none]
+  split <;> rfl
+
+/-- **byname_retry_correct**: after ANY by-name save attempt (any fault point of the files nibabel opened itself,
+    any override, any external behaviour) a following save — by name or to a file_map — behaves exactly as it would
+    have on the untouched image: same result, same I/O calls, same bytes -/
+theorem byname_retry_correct (cls : Cls) (env1 env2 : Env) (req1 req2 : SaveReq) (img : Img)
+    (hwf : img.wf cls) (henv : env1.ok cls) :
+    let img' := (saveByName cls env1 req1 img).img
+    ((saveByName cls env2 req2 img').err = (saveByName cls env2 req2 img).err ∧
+     (saveByName cls env2 req2 img').out = (saveByName cls env2 req2 img).out ∧
+     (saveByName cls env2 req2 img').log = (saveByName cls env2 req2 img).log) ∧
+    ((save cls env2 req2 img').err = (save cls env2 req2 img).err ∧
+     (save cls env2 req2 img').out = (save cls env2 req2 img).out ∧
+     (save cls env2 req2 img').log = (save cls env2 req2 img).log) := by
+  intro img'
+  have key : img'.core = img.core ∨ img'.core = harmonise img.core :=
+    (byname_harmonises cls env1 req1 img hwf henv).1
+  constructor
+  · unfold saveByName
+    rcases key with h | h
+    · have h := save_congr cls env2 { req2 with fileMap := none } { img' with fileMap := req2.fileMap.getD img'.fileMap }
+        { img with fileMap := req2.fileMap.getD img.fileMap } h
+      exact ⟨h.1, h.2.1, h.2.2.1⟩
+    · have h := save_congr_harm cls env2 { req2 with fileMap := none } { img' with fileMap := req2.fileMap.getD img'.fileMap }
+        { img with fileMap := req2.fileMap.getD img.fileMap } h
+      exact ⟨h.1, h.2.1, h.2.2.1⟩
+  · rcases key with h | h
+    · have h := save_congr cls env2 req2 img' img h
+      exact ⟨h.1, h.2.1, h.2.2.1⟩
+    · have h := save_congr_harm cls env2 req2 img' img h
+      exact ⟨h.1, h.2.1, h.2.2.1⟩
+
+example : (saveByName .n1single exEnv (exReq 2) exImg).err = some .os ∧
+    (saveByName .n1single exEnv (exReq 2) exImg).img.fileMap = 7 ∧ exImg.fileMap = 0 ∧
+    (saveByName .n1single exEnv ⟨.none, some 8, .none⟩ (saveByName .n1single exEnv (exReq 2) exImg).img).err = none := by
+  decide
+
+/-! ### the writer never stores into the image's array -/
+
+/-- **write_data_never_stores_into_input**: whichever of its eight branches one iteration of the slice loop of
+    `_write_data` takes, it never stores into memory it shares with the array it was given (the image's own array):
+    the only in-place store (`dslice[nans] = nan_fill`) is reached either after a step that rebound `dslice` to a
+    new array or after the `nan_need_copy` copy -/
+theorem write_data_never_stores_into_input (f : WFlags) : sliceLoopStoresIntoInput f = false := by
+  cases f with
+  | mk a b c d e g h i =>
+    cases a <;> cases b <;> cases c <;> cases d <;> cases e <;> cases g <;> cases h <;> cases i <;> rfl
+
+/-- the source still has the statements `sliceBody` is written for -/
+theorem write_data_skeleton_agrees : Gen.skelWriteData = expectedSkelWriteData := by decide
+
+/-- a loop that gathers with `np.ascontiguousarray` and then scales in place (the change class of a seeded bug) does
+    store into the input exactly when the slice needed no copy (F-ordered array of the working type) -/
+theorem inplace_scaling_stores_into_input_counterexample :
+    (runSlice (sliceBodyInplace true ⟨false, false, true, true, false, false, false, true⟩) (true, false)).2 = true ∧
+    (runSlice (sliceBodyInplace false ⟨false, false, true, true, false, false, false, true⟩) (true, false)).2 = false := by
+  decide
+
+example : sliceLoopStoresIntoInput ⟨false, false, false, false, false, true, true, false⟩ = false ∧
+    nanNeedCopy ⟨false, false, false, false, false, true, true, false⟩ = true := by decide
+
 end Nb.C07
